@@ -479,9 +479,7 @@ static void _binson_print_cb(binson_parser *parser, uint16_t next_state, void *c
             printf("{");
             break;
         case BINSON_STATE_PARSED_OBJECT_END:
-            if (state->array_depth > 0) {
-                *pstate = 0x05;
-            }
+            *pstate = (state->array_depth > 0) ? 0x05 : 0x02;
             printf("}");
             break;
         case BINSON_STATE_PARSED_ARRAY_BEGIN:
@@ -587,9 +585,7 @@ static void _binson_to_string_cb(binson_parser *parser, uint16_t next_state, voi
             ret = snprintf(pbuf, available, "{");
             break;
         case BINSON_STATE_PARSED_OBJECT_END:
-            if (state->array_depth > 0) {
-                *pstate = 0x05;
-            }
+            *pstate = (state->array_depth > 0) ? 0x05 : 0x02;
             ret = snprintf(pbuf, available, "}");
             break;
         case BINSON_STATE_PARSED_ARRAY_BEGIN:
